@@ -26,6 +26,10 @@ def setup():
 
 
 def main():
+    # generators must be a function of VERIF_SEED alone: fix the string hash seed (iteration order of sets)
+    if os.environ.get('PYTHONHASHSEED') != '0':
+        os.environ['PYTHONHASHSEED'] = '0'
+        os.execv(sys.executable, [sys.executable] + sys.argv)
     ap = argparse.ArgumentParser()
     ap.add_argument('prop', nargs='?')
     ap.add_argument('--tier', default=os.environ.get('VERIF_TIER', 'quick'))
